@@ -90,9 +90,15 @@ def main():
     s = open(p, encoding="utf-8").read()
     if BEGIN in s and END in s:
         s = s[:s.index(BEGIN) + len(BEGIN)] + "\n" + text + s[s.index(END):]
-        open(p, "w", encoding="utf-8").write(s)
     else:
         print(text)
+    nb, ne = "<!-- BEGIN GENERATED NOTES -->", "<!-- END GENERATED NOTES -->"
+    if nb in s and ne in s:
+        notes = []
+        for d in sorted(glob.glob(os.path.join(ROOT, "docs", "DESIGN-*.md"))):
+            notes.append(open(d, encoding="utf-8").read().rstrip("\n") + "\n")
+        s = s[:s.index(nb) + len(nb)] + "\n" + "\n".join(notes) + s[s.index(ne):]
+    open(p, "w", encoding="utf-8").write(s)
 
 
 if __name__ == "__main__":
